@@ -1,7 +1,9 @@
 #!/venv/bin/python
-"""tools/run_benign.py [ids...] -- apply every confirmed behaviour-preserving refactoring under /verif/benign to /repo in turn, run all 20 quick
-checks, restore /repo, and record in each meta.json which checks (wrongly) report it (exit 1) or lose decidability (exit 2)."""
-import json, pathlib, subprocess, sys, re
+"""tools/run_benign.py [ids...] -- apply every confirmed behaviour-preserving refactoring under /verif/benign to a scratch copy of /repo in turn (never to /repo itself), run all 20 quick
+checks on it, and record in each meta.json which checks (wrongly) report it (exit 1) or lose decidability (exit 2)."""
+import json, os, pathlib, subprocess, sys, re
+sys.path.insert(0, str(pathlib.Path(__file__).resolve().parent))
+from _scratch import scratch
 from concurrent.futures import ThreadPoolExecutor
 V = pathlib.Path("/verif"); R = "/repo"
 PROPS = [f"C{i:02d}" for i in range(1, 21)]
@@ -15,20 +17,18 @@ for sid in ids:
     meta = json.loads((d / "meta.json").read_text())
     if not meta.get("valid"):
         print(sid, "not a confirmed refactoring; skipped"); continue
-    r = sh("git", "-C", R, "apply", str(d / "patch.diff"))
-    if r.returncode:
-        print(sid, "patch does not apply:", r.stderr.strip()[:100]); continue
     det, err, rules = [], [], {}
-    try:
+    with scratch(d / "patch.diff") as (root, perr):
+        if perr is not None:
+            print(sid, "patch does not apply:", perr[:100]); continue
+        env = dict(os.environ, PVX_ROOT=str(root))
         with ThreadPoolExecutor(16) as ex:
-            outs = list(ex.map(lambda p: sh(str(V / "check"), p, "--tier", "quick", "--no-evidence"), PROPS))
+            outs = list(ex.map(lambda p: sh(str(V / "check"), p, "--tier", "quick", "--no-evidence", env=env), PROPS))
         for p, o in zip(PROPS, outs):
             if o.returncode == 1:
                 det.append(p); rules[p] = sorted(set(re.findall(r"rule=(\S+) construct=(\S+)", o.stdout)))
             elif o.returncode != 0:
                 err.append(p); rules[p] = re.findall(r"ANALYSIS-ERROR[^\n]{0,200}", o.stdout)[:3]
-    finally:
-        sh("git", "-C", R, "checkout", "--", ".")
     meta["checks"] = {"false_alarm_in": det, "undecided_in": err, "detail": {k: [list(x) if isinstance(x, tuple) else x for x in v] for k, v in rules.items()}}
     (d / "meta.json").write_text(json.dumps(meta, indent=1) + "\n")
     n_alarm += bool(det); n_undec += bool(err and not det)
